@@ -20,7 +20,7 @@ def is_none(s):
 
 
 def ident(rng, prefix, used):
-    syl = ["Al", "Be", "Ca", "Do", "En", "Fi", "Go", "Hu", "Ix", "Jo", "Ka", "Lu", "Mo", "Ne", "Op", "Pa", "Qu", "Ro", "Si", "Tu", "X", "AB", "B2"]
+    syl = ["Al", "Be", "Ca", "Do", "En", "Fi", "Go", "Hu", "Ix", "Jo", "Ka", "Lu", "Mo", "Ne", "Op", "Pa", "Qu", "Ro", "Si", "Tu", "X", "AB", "B2", "None"]
     while True:
         s = prefix + "".join(rng.choice(syl) for _ in range(rng.randint(0, 2))) + rng.choice(["", "", str(rng.randint(0, 9))])
         if s not in used and not is_none(s) and s not in ("True", "False", "Event", "Enum") and not keyword.iskeyword(s[0].lower() + s[1:]) \
